@@ -339,11 +339,10 @@ def _gawf_heights(ex, st, args, kwargs, node):
     return Val(REAL, f(lift(info)))
 
 
-# UNVERIFIED call-site summary (props=[]): the body tests `origin is self.Origin.BASELINE` ... — `is` between an IntEnum-typed value and an
-# IntEnum member constant (which the engine lifts as a plain int) is `Unsupported` (notes/C01.requests.md item 15).  The summary is now the
-# exact case table `origin_height_spec` (first wave: an opaque symbol); it is exercised natively by the run-time harness of set_context (all
-# five origins, both UFO libraries).  Set _GOH_PROPS = ["C15"] to verify it once the engine supports the test.
-_GOH_PROPS: list = []
+# VERIFIED since the engine knows IntEnum members / `is` on them and nested classes of a repo= class (first wave: an unverified opaque
+# summary): the method returns exactly the case table `origin_height_spec`; the `raise AssertionError` branch is unreachable for a member
+# of the enum.
+_GOH_PROPS: list = ["C15"]
 contract(
     "ufo2ft.filters.transformations:TransformationsFilter.get_origin_height",
     props=_GOH_PROPS,
@@ -1146,3 +1145,16 @@ contract(
     },
     canaries={"always-changes": "result"},
 )
+
+
+def _goh_cases(rng, n):
+    return [{"origin": k % 5, "cap": rng.choice([700, 701, 650.5]), "xh": rng.choice([500, 499, 480.5]), "ufolib": ["ufoLib2", "defcon"][(k // 5) % 2]} for k in range(n)]
+
+
+def _goh_build(d):
+    f = rtlib.build_ufo({"glyphs": {"a": {"width": 500, "box": [0, 0, 100, 100]}}, "info": {"unitsPerEm": 1000, "capHeight": d["cap"], "xHeight": d["xh"]}}, d["ufolib"])
+    flt = _TF(Origin=d["origin"])
+    return {"self": flt, "font": f, "origin": flt.options.Origin}
+
+
+CONTRACTS["ufo2ft.filters.transformations:TransformationsFilter.get_origin_height"].runtime = Runtime(_goh_cases, _goh_build)
